@@ -29,6 +29,7 @@ func (e *Engine) lemmaJobs(names string) ([]lemmaJob, []string) {
 		found[l.Name] = true
 		vc := &VC{eng: e, key: "lemma"}
 		vc.reset(false)
+		vc.revealAll = true
 		vc.anc = []map[int]bool{{0: true}}
 		vc.reach[0] = "true"
 		vc.heap = Heap{m: map[string]string{}}
